@@ -34,7 +34,7 @@ var evidenceDir string
 func registerProps() {
 	for _, p := range []*PropDef{
 		{ID: "C17", Title: "Source loading maps every file to its package and a real common root", DesignRef: "§4 C17"},
-		{ID: "C19", Title: "Declaration assembly is a set-like, order-independent merge", DesignRef: "§4 C19"},
+		{ID: "C19", Title: "Declaration assembly is a set-like, order-independent merge", DesignRef: "§4 C19", Lemmas: []string{"sorted_perm_unique.lean"}, Trusted: []string{"lemma sorted_perm_unique (Lean 4 core, /verif/lemmas/sorted_perm_unique.lean, re-checked in the thorough tier): a key-sorted permutation whose equal-key elements are equal is unique; its hand correspondence with the SMT-level postconditions (sorted by (priority, ID); same elements)"}},
 		{ID: "C10", Title: "Enum detection is exact", DesignRef: "§4 C10"},
 		{ID: "C11", Title: "Union detection and membership are exact", DesignRef: "§4 C11"},
 		{ID: "C07", Title: "Generation is deterministic", DesignRef: "§4 C07", Ordind: true},
